@@ -219,6 +219,17 @@ public class MasaReal {
   public static Value NSqrtL(final Value a) { return leaf(dec(a).v.sqrt(WC)); }
   public static Value NPowL(final Value a, final Value b) { return leaf(powBD(dec(a).v, dec(b).v)); }
   public static Value NAbsL(final Value a) { return leaf(dec(a).v.abs()); }
+  public static Value NAbs(final Value a) { Num x = dec(a); return enc(x.v.abs(), x.m); }
+  // asin on (-1, 1): Newton iteration on sin from the double approximation
+  public static Value NAsinL(final Value a) {
+    BigDecimal y = dec(a).v;
+    BigDecimal x = new BigDecimal(Math.asin(y.doubleValue()));
+    for (int i = 0; i < 6; i++) {
+      BigDecimal[] sc = sincosBD(x);
+      x = x.subtract(sc[0].subtract(y, WC).divide(sc[1], WC), WC);
+    }
+    return leaf(x);
+  }
   public static Value NLeaf(final Value a) { return leaf(dec(a).v); }
   // value f0 = f(a) with first derivative f1 = f'(a): magnitude |f0| + |f1| mag(a)
   public static Value NFun(final Value f0, final Value f1, final Value a) {
@@ -237,6 +248,13 @@ public class MasaReal {
     double tol = Math.pow(2, ((IntValue) k).val) * unit(((StringValue) p).val.toString()) * e.m;
     BigDecimal diff = g.v.subtract(e.v, WC).abs();
     return diff.compareTo(new BigDecimal(tol)) <= 0 ? BoolValue.ValTrue : BoolValue.ValFalse;
+  }
+  // |a - b| <= 2^k * u_p * mag(scale)
+  public static Value NCloseTo(final Value a, final Value b, final Value scale, final Value k, final Value p) {
+    Num x = dec(a), y = dec(b), s = dec(scale);
+    if (!x.finite || !y.finite || !s.finite) return BoolValue.ValFalse;
+    double tol = Math.pow(2, ((IntValue) k).val) * unit(((StringValue) p).val.toString()) * s.m;
+    return x.v.subtract(y.v, WC).abs().compareTo(new BigDecimal(tol)) <= 0 ? BoolValue.ValTrue : BoolValue.ValFalse;
   }
   // ceil(log2(|got - exp.val| / (u_p * exp.mag))), -99 if the difference is zero, 999 if mag is zero but diff not
   public static Value NErrBits(final Value got, final Value exp, final Value p) {
